@@ -22,7 +22,9 @@ TRUSTED = [
     "sorted() of a set of distinct reals returns the strictly increasing enumeration of exactly its members; "
     "bisect.bisect_left(sorted list, v) is the number of entries < v (pyvc/floatsets.py)",
     "set comprehensions, set.add and | have their mathematical meaning on sets of reals (floats as reals, A1)",
-    "pulser validates evaluation times to lie in [0, 1]; sequence.get_duration(...) > 0",
+    "pulser validates evaluation times to lie in [0, 1]; sequence.get_duration(...) > 0; "
+    "domain: dt > 2e-10 * duration (fewer than 5e9 steps)",
+    "`s |= t` on a local set that has no alias is `s = s | t`",
     "_get_target_times sees the result of _unique_observable_times only as 'a set of requested times in "
     "[0, 1]' (its own contract is verified separately)",
 ]
